@@ -494,14 +494,16 @@ def replay(data):
                             return True, f"{cfg['name']}: column {k + 1} at index {gi} is {got.tolist()}, expected {want[k].tolist()} (centre {c}, width {w})"
             elif cfg["kind"] == "shape":
                 v = {"A": float(rng.uniform(0.5, 2)), "x0": float(rng.uniform(400, 600)), "D": float(rng.uniform(10, 60)), "b": float(rng.uniform(-0.5, 0.5))}
+                if _ % 3 == 0:
+                    v["b"] = [0.0, 1e-9, -5e-9][(_ // 3) % 3]  # the |skewness| <= 1e-8 dispatch to the plain Gaussian
                 s = build_shape(cfg["shape"], lambda nm: v[nm])
                 A = v["A"] if cfg["shape"] != "gaussian-noamp" else 1.0
                 y = s.calculate(np.array([v["x0"], v["x0"] + v["D"] / 2, v["x0"] - v["D"] / 2]))
                 if abs(y[0] - A) > 1e-9:
                     return True, f"{cfg['shape']} shape {v}: value at the location is {y[0]}, amplitude {A}"
-                if cfg["shape"] != "skewed" and (abs(y[1] - A / 2) > 1e-9 or abs(y[2] - A / 2) > 1e-9):
+                if (cfg["shape"] != "skewed" or abs(v["b"]) <= 1e-8) and (abs(y[1] - A / 2) > 1e-9 or abs(y[2] - A / 2) > 1e-9):
                     return True, f"{cfg['shape']} shape {v}: values at location +- FWHM/2 are {y[1:].tolist()}, half maximum {A / 2}"
-                if cfg["shape"] == "skewed":
+                if cfg["shape"] == "skewed" and abs(v["b"]) > 1e-8:
                     xs = np.array([v["x0"] + 7.0, v["x0"] - 3 * v["D"] / abs(v["b"])])
                     th = 1 + 2 * v["b"] * (xs - v["x0"]) / v["D"]
                     want = np.where(th > 0, A * np.exp(-np.log(2) * (np.log(np.where(th > 0, th, 1)) / v["b"]) ** 2), 0.0)
